@@ -676,10 +676,14 @@ class CodeBuilder:
         else:
             config_cls = cls.__dict__.get("Config", BaseConfig)
         if not issubclass(config_cls, BaseConfig):
+            # options a plain Config inherits from its plain parents count too
+            options = {}
+            for config_base in reversed(config_cls.__mro__[:-1]):
+                options.update(config_base.__dict__)
             config_cls = type(
                 "Config",
                 (BaseConfig, config_cls),
-                {**BaseConfig.__dict__, **config_cls.__dict__},
+                {**BaseConfig.__dict__, **options},
             )
         return config_cls
 
